@@ -1,6 +1,7 @@
 // Shared helpers of the conformance harnesses: ndjson event writer, seeded PRNG,
 // whitespace script reader.  Everything TLC sees is a small integer (DESIGN 3.1).
 #pragma once
+#include <algorithm>
 #include <cmath>
 #include <cstdint>
 #include <cstdio>
